@@ -1980,5 +1980,5 @@ func TestVerifC20(t *testing.T) {
 	}
 	sink.extraFile("keys", c20KeyTable(newVrng(env.seed, 777777), 150))
 	sink.stats.Extra = map[string]float64{"harness_seconds": time.Since(t0).Seconds()}
-	sink.close("real asyncEventsNats over the real LoopbackNatsClient: seeded sequential scripts (publish/register/unregister on the four subject kinds, overlapping subjects, blocking callbacks, 64-slot overflow; collision pool: ids with their base64 / hex / separator / case / id|backend derivations as ids of their own, a listener per target and a publication per target, every ordered pair judged by P_C20 clause 3) run to quiescence after each call and replayed on the model; concurrent runs (publishers and registering/unregistering listeners) judged by P_C20; non-trivial = at least 3 callbacks; distinct = distinct event sequences")
+	sink.close("real asyncEventsNats over the real LoopbackNatsClient: seeded sequential scripts (publish/register/unregister on the four subject kinds, overlapping subjects, blocking callbacks, 64-slot overflow; collision pool: ids with their base64 / hex / separator / case / id|backend derivations as ids of their own, a listener per target and a publication per target, every ordered pair judged by P_C20 clause 3) run to quiescence after each call and replayed on the model; scripts with held callbacks also judged by the clauses of P_C20 that hold of every history (a listener changed inside the dispatch of one message: unregistered -> not called any more, clause 5; registered again -> called or not, both runs of the model); concurrent runs (publishers and registering/unregistering listeners) and phased scripts whose register / unregister calls overlap behind a mutex the harness holds (subscriber mutex, loopback client mutex) judged by P_C20; non-trivial = at least 3 callbacks; distinct = distinct event sequences")
 }
